@@ -184,25 +184,25 @@ example : spliceOk "'\"'\"'".toList [.dbl [sq]] = true := by decide +kernel
 example : spliceOk "'\\''".toList [.esc sq] = true := by decide +kernel
 example : spliceOk "\\'".toList [] = false := by decide +kernel
 
-/-- the model's `args2sh` is the instance with the `'"'"'` splice and the generated safe-character class -/
-theorem args2sh_is_instance (args : List Str) :
-    args2sh args = args2shWith allSafe [sq, dq, sq, dq, sq] args := by
-  have hr : ∀ a, replSq a = replSqWith [sq, dq, sq, dq, sq] a := by
-    intro a; induction a with
-    | nil => rfl
-    | cons c cs ih => simp only [replSq, replSqWith, ih]; split <;> simp
-  have hq : ∀ a, shQuote a = shQuoteWith allSafe [sq, dq, sq, dq, sq] a := by
-    intro a; simp only [shQuote, shQuoteWith, hr]
-  simp only [args2sh, args2shWith]
-  congr 1
-  exact List.map_congr_left (fun a _ => hq a)
+/-- translator obligations (re-proved against the tables regenerated from the current source): the text the
+    code splices in for an embedded single quote is a valid way of writing one (`spliceOk`, with the piece
+    decomposition proposed by the translator), and the class of characters that make `args2cmd` wrap an
+    argument in double quotes contains blank and tab -/
+theorem sh_splice_table_sound : spliceOk sqSplice splicePieces = true := spliceTable_ok
+
+theorem cmd_quote_table_sound (a : Str) (h : needQuote a = true) : cmdNeedQuote a = true :=
+  cmdNeedQuote_of_needQuote a h
+
+/-- the model's `args2sh` is the instance with the regenerated splice and the regenerated safe-character class -/
+theorem args2sh_is_instance (args : List Str) : args2sh args = args2shWith allSafe sqSplice args := rfl
+
+-- whatever the regenerated splice is, a quote inside an argument comes back as that quote
+example : shSplit (args2sh ["it's".toList, "''".toList]) = some ["it's".toList, "''".toList] := by decide +kernel
 
 /-- the same encoder with the backslash splice `'\''` (what `shlex.quote`-style code writes) is correct too -/
 theorem sh_roundtrip_backslash_splice (args : List Str) (h : NoNul args) :
     shAccepts (args2shWith allSafe [sq, bsl, sq, sq] args) args = true :=
-  sh_roundtrip_with allSafe
-    (fun a ha c hc => safe_sub_literal c (by simp only [allSafe, List.all_eq_true] at ha; exact ha c hc))
-    _ [.esc sq] (by decide +kernel) args h
+  sh_roundtrip_with allSafe allSafe_literal _ [.esc sq] (by decide +kernel) args h
 
 example : args2shWith allSafe [sq, bsl, sq, sq] ["it's".toList, "x".toList] = "'it'\\''s' x".toList := by
   decide +kernel
@@ -213,8 +213,8 @@ theorem cmd_roundtrip_anyquote (qp : Str → Bool) (hq : ∀ a, needQuote a = tr
     (args : List Str) (h : NoNul args) : crtAccepts (args2cmdQ qp args) args = true :=
   (crt_accepts_iff _ _).2 (fun v => cmd_roundtrip_anyquote_aux v qp hq args h)
 
-/-- the model's `args2cmd` is the instance with the minimal predicate -/
-theorem args2cmd_is_instance (args : List Str) : args2cmd args = args2cmdQ needQuote args :=
+/-- the model's `args2cmd` is the instance with the regenerated predicate -/
+theorem args2cmd_is_instance (args : List Str) : args2cmd args = args2cmdQ cmdNeedQuote args :=
   args2cmd_eq_Q args
 
 example : args2cmdQ (fun a => needQuote a || a.contains '&') ["x&y".toList, "tail\\".toList, "a&\\".toList] =
@@ -504,6 +504,19 @@ theorem int_ranges_of_format (d rd : Char) (ok : DelimOK d rd) (L : List Nat) (s
   exact format_canonical_unique_delims d rd L sp rs h2 (fun x => by rw [h3, mem_sortDedup])
 
 example : intRanges "1; 3; 5:8".toList ';' ':' = some [(1, 1), (3, 3), (5, 8)] := by decide +kernel
+
+/-- translator obligation: the default `delim` / `range_delim` of the integer-list functions (read from the
+    signatures on every run) form an admissible pair, so every `_delims` theorem applies to the defaults
+    whatever they are -/
+theorem int_defaults_ok : DelimOK defaultDelim defaultRangeDelim := by decide +kernel
+
+theorem int_roundtrip_defaults (L : List Nat) (sp : Bool) :
+    parseIntList (formatIntList L sp defaultDelim defaultRangeDelim) defaultDelim defaultRangeDelim =
+      some (sortDedup L) :=
+  int_roundtrip_delims _ _ int_defaults_ok L sp
+
+example : parseIntList (formatIntList [3, 1, 2, 9] false defaultDelim defaultRangeDelim) defaultDelim defaultRangeDelim =
+    some [1, 2, 3, 9] := by decide +kernel
 
 example : parseIntList "1,3,5-8,10-11,15".toList = some [1, 3, 5, 6, 7, 8, 10, 11, 15] := by decide +kernel
 example : formatIntList [8, 1, 3, 5, 7, 6, 3, 10, 11, 15] = "1,3,5-8,10-11,15".toList := by decide +kernel
